@@ -38,6 +38,26 @@ def enc(s):
     b = s.encode("utf-8")
     return b.hex() if b else "-"
 
+def nibble_moves(b):
+    """values that have the same rendering as `b` when its parts are printed WITHOUT zero padding: a zero nibble taken out at one place and
+    put back a little later — `0a bc` -> `ab 0c` (each byte printed with `{:x}`), and the same across 32-, 64- and 128-bit part boundaries.
+    What a comparison through an unpadded hex / decimal string confuses; no bit flip, byte change or reversal produces these."""
+    h = b.hex()
+    out = []
+    zeros = [p for p in range(len(h) - 2) if h[p] == "0"][:3]
+    for p in zeros:
+        for d in (3, 2, 8, 9, 16, 17, 32, 33):
+            q = p + d
+            if q <= len(h):
+                h2 = h[:p] + h[p + 1:q] + "0" + h[q:]
+                if h2 != h and len(h2) == len(h):
+                    out.append(bytes.fromhex(h2))
+    seen, res = set(), []
+    for x in out:
+        if x not in seen:
+            seen.add(x); res.append(x)
+    return res[:10]
+
 def two_place_flips(rng, b, n=12):
     """the same change applied in two places 1/2/4/8 bytes apart, and patterns whose per-byte / per-word
     differences cancel under xor or sum to zero"""
@@ -51,6 +71,7 @@ def two_place_flips(rng, b, n=12):
         out.append(bytes(x))
     x = bytearray(b); x[0] ^= 1; x[L - 1] ^= 1; out.append(bytes(x))
     x = bytearray(b); x[0] = (x[0] + 1) & 0xff; x[1] = (x[1] - 1) & 0xff; out.append(bytes(x))
+    out += nibble_moves(b)          # same rendering as `b` when printed without zero padding
     return out
 
 # ---- dictionary harvested from the source under test -------------------------------------------------------------------------------
